@@ -128,13 +128,15 @@ def run_state_task(task):
     return res
 
 
-def state_alphabet(fam, with_sims):
+def state_alphabet(fam, with_sims, depth_edits=99):
     w0 = W.family(fam)
 
     def alphabet_of(node, info, depth):
         hist = node["history"]
         w = H.fold_spec(W.family(fam), hist)
         has_sim = any(e[0] == "sim" for e in hist)
+        if not has_sim and len(hist) >= depth_edits:
+            return []       # the two extra levels are for the toggles that follow a simulation only
         if has_sim:
             # after a simulation: toggles only (edits on a system with a pending simulation are out of scope)
             last = [e[0] for e in hist if e[0] in ("sim", "on", "off")][-1]
@@ -336,7 +338,7 @@ def run_task(task):
 
 # ---------------------------------------------------------------------------------------------- main
 TIERS = {
-    "quick": {"state": [("W1", "rev", 2, True, 900), ("W2", "rev", 1, True, None), ("W3", "default", 1, True, None)],
+    "quick": {"state": [("W1", "default", 1, True, None), ("W2", "rev", 1, True, None), ("W3", "default", 1, True, None)],
               "complete": ["W1", "W2", "W3"], "dag": [(1, "all"), (2, "all"), (3, "all"), (4, "all"), (5, "all")]},
     "thorough": {"state": [("W1", "rev", 2, True, None), ("W2", "rev", 2, True, None), ("W3", "rev", 2, True, 20000),
                            ("W4", "default", 1, True, None)],
@@ -362,7 +364,7 @@ def main(tier):
         scheds = [{}, H.reversed_schedule(w)] if sched == "rev" else [{}]
         roots = [{"world": fam, "perms": p, "history": [], "kind": "state"} for p in scheds]
         # sims add toggles: allow one extra level for on, one for off
-        st = engine.bfs(roots, state_alphabet(fam, sims), depth + (2 if sims else 0), run, max_states=cap)
+        st = engine.bfs(roots, state_alphabet(fam, sims, depth), depth + (2 if sims else 0), run, max_states=cap)
         cov["states"] += st["states"]
         cov["transitions"] += st["transitions"]
         if st["capped"]:
